@@ -10,6 +10,37 @@ NOTE = ("Trusted base: go/types + go/ssa (x/tools v0.29.0), CHA/VTA call-graph o
 
 # id -> (technique, level text, design ref)
 CLAIMS = {
+ "C01": ("finite-domain abstract interpretation of package ship's SSA (handshake automaton extraction, all entries x 40 states x both roles) + who-may-call/guarded-by rules in package hub",
+         "Inductive invariant over the extracted automaton: every transition from a pre-trust into a post-trust state is on a path that passed the positive edge of a trust predicate or is the user-approval step; setup callback only in state Approved; SPINE reader only from that callback, delivery only through it; hub sets trust only on registration or hello-ok and approves pending handshakes only from RegisterRemoteSKI. This is the universally quantified reachability clause (no message/timeout/error sequence advances an untrusted peer) decided on an over-approximation of the code; application callback logic is not decided.",
+         "DESIGN.md §3 C01"),
+ "C03": ("table agreement over resolved constants (sent vs. compared wire enums, versions, model types, member-name literals vs. JSON tags) + automaton rules (trust decision edges, DAG check, terminal => close)",
+         "Necessary conditions of two ship-go endpoints agreeing: both roles of the same code speak the same alphabet, a trusted/approving server takes the ready path, the progress graph is acyclic with the setup callback in state Approved, a side that gives up closes. Agreement under delays and timer interleavings of two processes is not decided.",
+         "DESIGN.md §3 C03"),
+ "C04": ("finite-domain abstract interpretation of package ship's SSA: extracted transition relation compared with the SHIP 1.0.1 state graph; finality, timer and close rules over all entry paths",
+         "The whole reachable edge relation (every entry point from every state, both roles, every transport write may fail) is contained in the specification graph; terminal states are only left into Error, no arm / no non-closing send in a terminal state, timer flag false and transport closed when a terminal or the completed state is entered. Timer durations are not decided.",
+         "DESIGN.md §3 C04"),
+ "C05": ("path enumeration with exhaustive abstract-input evaluation of the double-connection decision; must-pass-through rules (attempt flag, reconnect trigger, construct=>run=>register, end report)",
+         "Necessary conditions of convergence to one connection: the keep/drop decision is antisymmetric between initiator and acceptor and order-dependent (exhaustive over its finite abstraction), the attempt-running flag is always released, a closed trusted/completed connection always triggers re-announce+request, every constructed connection is run and registered unconditionally, every connection end is reported. Convergence in bounded time under disturbances is not decided.",
+         "DESIGN.md §3 C05"),
+ "C06": ("path enumeration of the incoming-frame entry, lockset and provenance rules for the pre-completion buffer, channel-discipline rules for the outgoing queue",
+         "Necessary conditions of exactly-once in-order delivery: deliver xor buffer on every data path with the right guards and provenance, fresh decode target, buffer accessed under its mutex, tail appends, in-order flush that empties the buffer and is called synchronously after the reader is installed, single consumer / serialised producers of the outgoing queue, delivery only through the installed reader. End-to-end histories are not decided.",
+         "DESIGN.md §3 C06"),
+ "C09": ("path enumeration with literals (decision table) of the access-methods handler + automaton state rules + who-may-write + provenance at hub construction sites",
+         "The SHIP-ID decision table of the handler is decided on all its feasible paths (pin, first-time report exactly once before approval, rejection), the stored id has two writers only, and both hub construction sites pass the stored id of the same stored service. Behaviour over later inputs rests on C04's finality.",
+         "DESIGN.md §3 C09"),
+ "C10": ("who-may-call / guarded-by / must-pass-through rules in package hub, automaton rule for the abort entry, SKI taint rule",
+         "Necessary conditions of 'pairing follows user intent': single gated dial function (paired-or-queued check in the dialling invocation, shutdown flag), unregister/cancel effects on all paths, abort entry ends terminal from both waiting states, user SKI spelling normalised before lookups. Multi-hub operation histories are not decided.",
+         "DESIGN.md §3 C10"),
+ "C11": ("who-may-call (close-once ownership), exactly-once path counting, lockset + guarded-by for the registry delete, re-entrancy detection by the automaton interpreter",
+         "Necessary conditions of 'every connection end accounted for exactly once': all end reports and transport closes of package ship are inside the shutdownOnce body, that body reports exactly once on every path and is never re-entered, the hub deletes a registry entry only under an identity check made in the same critical section, the hub notifies the application exactly once per end. The settled notification sequence of real runs is not decided.",
+         "DESIGN.md §3 C11"),
+ "C14": ("channel/typestate discipline of the timer mechanism over go/ssa: per-arm token and time source, close-based cancellation on all stop paths, lock-protected identity re-validation on fire, no loop",
+         "The schedule property is not static; decided is that the cancellation protocol is not lossy by construction (the lost-stop, stale-goroutine and stale-tick windows do not exist structurally). Real timing is not decided.",
+         "DESIGN.md §3 C14"),
+ "C15": ("interprocedural taint (source: HubInterface ski parameters, sanitiser: util.NormalizeSKI, sinks: keys of Hub's map[string] fields and ski arguments of reader callbacks)",
+         "The metamorphic property rests on every SKI-keyed access and callback seeing the canonical form; that clause is decided for all public entry points through all hub helpers; construction sites use ServiceDetails.SKI(). Equality of all other effects is not decided.",
+         "DESIGN.md §3 C15"),
+
  "C12": ("channel close/send discipline + escape-arm + must-pass path rules over go/ssa CFG of package ws",
          "Structural necessary conditions of 'write vs. close never panics or hangs': no sent-to channel is closed by another goroutine, every enqueue is a select with an escape arm on a channel the close routine closes, closed flag read dominates the enqueue and only the enqueue path returns nil. The racing interleaving the property quantifies over exists exactly when one of these is broken; the prefix property at the peer is not decided.",
          "DESIGN.md §3 C12"),
